@@ -1,10 +1,12 @@
 import Cirbo.Proofs.Connect
+import Cirbo.Proofs.ConnSem
 /-!
 # C10 — Circuit composition computes the documented functional composition
 
 -- OBLIGATION: c10_frame_add_gate
 -- OBLIGATION: c10_left_connection_keeps_base_function
--- PARTIAL: proved: every left connection (connect_circuit(right_connect=False), connect_left, extend_circuit, add_circuit) only adds gates and leaves the value of every base gate unchanged under every assignment. Not yet proved: that the attached gates compute the attached circuit's function of the connector values, the exact inputs/outputs lists, the right-connect direction and block extraction. All of it is modelled one-to-one (Model/Mutate2.lean connStep/connFinish) and compared with the code field by field (both directions, wrappers, name/prefix options, repeated composition); the implementation's result is checked against the composed evaluation of the two operands on all assignments, against the documented interface, checkWFU and block extraction.
+-- OBLIGATION: c10_left_connection_computes_the_composition
+-- PARTIAL: proved for every left connection (connect_circuit(right_connect=False), connect_left, extend_circuit, add_circuit): (1) only gates are added and every base gate keeps its value under every assignment; (2) the attached gates compute the attached circuit's function of the values at the connectors (a renaming of the attached circuit's labels — connectors to the base gates they were identified with, other gates to their prefixed copies — turns every valuation of the result into a valuation of the attached circuit). Not yet proved: the exact inputs/outputs lists of the result, the right-connect direction and block extraction. All of it is modelled one-to-one (Model/Mutate2.lean connStep/connFinish) and compared with the code field by field (both directions, wrappers, name/prefix options, repeated composition); the implementation's result is checked against the composed evaluation of the two operands on all assignments, against the documented interface, checkWFU and block extraction.
 -/
 namespace Cirbo
 open GateType Circuit
@@ -24,7 +26,19 @@ theorem c10_left_connection_keeps_base_function {c other c' : Circuit} {thisC ot
     ∃ b' v', IsValB c' b' v' ∧ (∀ l ∈ c.labels, v' l = v l) ∧ (∀ l ∈ c.labels, b' l = b l) ∧
       (∀ l ∈ c.labels, l ∈ c'.labels) := connect_left_frame h hcl har hv
 
+/-- the documented functional composition: reading the result through the renaming, the attached
+copy is a valuation of `other` whose inputs take the values of the connectors -/
+theorem c10_left_connection_computes_the_composition {c other c' : Circuit} {thisC otherC : List Label}
+    {name : Label} {addP : Bool} (hwo : WFG other)
+    (h : c.connectCircuit other thisC otherC false name addP = .ok c') :
+    ∃ φ : Label → Label,
+      (∀ b v, IsValB c' b v → IsValB other (v ∘ φ) (v ∘ φ)) ∧
+      (∀ l x, Dict.get? ((otherC.zip thisC).foldl (fun m p => Dict.set m p.1 p.2) ([] : Dict Label)) l = some x → φ l = x) ∧
+      (∀ g ∈ other.gates, g.ty ≠ INPUT → φ g.label = (if name != "" && addP then name ++ "@" else "") ++ g.label) :=
+  connect_left_semantics hwo h
+
 #print axioms c10_frame_add_gate
 #print axioms c10_left_connection_keeps_base_function
+#print axioms c10_left_connection_computes_the_composition
 
 end Cirbo
